@@ -329,6 +329,22 @@ class MatchVal:
         return NotImplemented
 
 
+class _CmExit:
+    """Leaving the block of a @contextmanager generator: its body runs on to the end."""
+
+    def __init__(self, gen):
+        self.gen = gen
+
+    def ai_call(self, interp, attr, pos, kw, node):
+        if attr == "__exit__" and not self.gen.done:
+            try:
+                next(self.gen)
+            except StopIteration:
+                return None
+            raise RaiseEx("RuntimeError", "generator didn't stop", node)
+        return None
+
+
 class SuppressVal:
     """contextlib.suppress(*exceptions)"""
 
@@ -597,6 +613,8 @@ class Interp:
         self.ext_summaries = {}   # "urllib.parse.unquote" -> fn(interp, pos, kw, node)
         self.hole_free_of = ""    # characters the symbolic holes are assumed not to contain
         self._mod_busy = set()
+        import urllib.parse as _up0
+        self.ext_values = {"urllib.parse.uses_netloc": list(_up0.uses_netloc)}          # {dotted name of a value of an external module: its model}
         self.lazy_generators = False   # generators of the evaluated code run lazily (threads with a baton) instead of being collected
         self._lazy_stack = []
         self._lazy_all = []
@@ -977,6 +995,18 @@ class Interp:
             hosts = []
             for item in st.items:
                 v = self.eval(item.context_expr, env)
+                if isinstance(v, (LazyGen, GenList)) and self._is_contextmanager(item.context_expr, env):
+                    # @contextlib.contextmanager: the value of the with-statement is what the generator yields first; the rest of
+                    # its body runs when the block is left
+                    cm = v
+                    if isinstance(cm, LazyGen):
+                        try:
+                            v = next(cm)
+                        except StopIteration:
+                            raise RaiseEx("RuntimeError", "generator didn't yield", st)
+                        hosts.append(_CmExit(cm))
+                    else:
+                        v = cm[0] if cm else None
                 if hasattr(v, "ai_call"):
                     hosts.append(v)
                 if item.optional_vars is not None:
@@ -1161,7 +1191,7 @@ class Interp:
                     tl = mod.toplevel[node.id]
                     dn_ = (self.proj.dotted(tl.value.func, mod, None) or "") if isinstance(tl, ast.Assign) and isinstance(tl.value, ast.Call) else ""
                     ext_call = bool(dn_) and (dn_ in self.ext_summaries or dn_ in ("itertools.count", "collections.defaultdict", "collections.OrderedDict", "collections.Counter", "collections.namedtuple",
-                                                                                    "operator.itemgetter", "operator.attrgetter", "operator.methodcaller", "functools.partial"))
+                                                                                    "operator.itemgetter", "operator.attrgetter", "operator.methodcaller", "functools.partial", "re.compile"))
                     if isinstance(tl, ast.Assign) and (isinstance(tl.value, (ast.Dict, ast.Tuple, ast.List, ast.Lambda)) or ext_call):
                         # a module-level table the constant folder cannot represent (it holds lambdas / classes): evaluated here
                         try:
@@ -1213,6 +1243,8 @@ class Interp:
             base = Opaque("%s.%s" % (base.base.name, base.attr), "obj")
         if isinstance(base, ModVal):
             if base.ext:
+                if base.name + "." + node.attr in self.ext_values:
+                    return self.ext_values[base.name + "." + node.attr]
                 return ModVal(base.name + "." + node.attr, ext=True)
             if base.name in self.proj.modules:
                 q = "%s.%s" % (base.name, node.attr)
@@ -1229,6 +1261,8 @@ class Interp:
                     # a module-level object the folder cannot represent (namedtuple type, table of lambdas, instance)
                     return self.e_Name(ast.Name(id=node.attr, ctx=ast.Load(), lineno=getattr(node, "lineno", 0)), {"__module__": base.name})
                 raise Unsupported("cannot fold %s.%s" % (base.name, node.attr))
+            if base.name + "." + node.attr in self.ext_values:
+                return self.ext_values[base.name + "." + node.attr]
             return ModVal(base.name + "." + node.attr)
         if isinstance(base, TypeVal) and base.name in self.proj.classes:
             k0 = self.proj.classes[base.name]
@@ -1790,6 +1824,8 @@ class Interp:
                     return Sym("%s[::-1]" % nm_, "str" if not isinstance(base, Opaque) else "any", None)
                 raise Unsupported("extended slice of %r" % (base,))
             if isinstance(base, (list, tuple, str)):
+                if not all(x is None or (isinstance(x, int) and not isinstance(x, bool)) for x in (lo, hi)):
+                    raise Unsupported("slice of a concrete sequence with abstract bounds")
                 return base[lo:hi]
             if isinstance(base, AStr) and (isinstance(lo, PosVal) or isinstance(hi, PosVal)) and all(x is None or x == 0 or isinstance(x, PosVal) for x in (lo, hi)):
                 parts = list(base.parts)
@@ -1902,6 +1938,10 @@ class Interp:
         if isinstance(base, Sym) and base.kind == "str" and isinstance(key, int):
             return Sym("%s[%d]" % (base.name, key), "char", True)
         if isinstance(base, dict):
+            try:
+                hash(key)
+            except TypeError:
+                raise RaiseEx("TypeError", "unhashable type: %r" % type(key).__name__, node)
             hit = self._sym_lookup(base, key, node)
             if hit is not None and hit[0] == "hit":
                 return hit[1]
@@ -2020,6 +2060,21 @@ class Interp:
         import itertools as _it
         env0 = {}
         seq = lambda x: isinstance(x, (list, tuple, StreamVal, HostIter, dict, str))
+        if name in ("urllib.parse.urlparse", "urlparse.urlparse") and pos and isinstance(pos[0], (str, AStr)):
+            import urllib.parse as _up1
+            v_ = pos[0].simplify() if isinstance(pos[0], AStr) else pos[0]
+            if isinstance(v_, str):
+                r_ = _up1.urlparse(v_)
+                o_ = Opaque("urlparse(%s)" % v_, "obj")
+                o_.attrs.update(dict(scheme=r_.scheme, netloc=r_.netloc, path=r_.path, query=r_.query, fragment=r_.fragment, params=r_.params))
+                return o_
+        if name == "re.compile" and pos and isinstance(pos[0], str) and not pos[1:] and not kw:
+            return RegexVal(pos[0])
+        if name in ("re.match", "re.search", "re.fullmatch", "re.findall", "re.finditer", "re.split", "re.sub", "re.subn") and len(pos) >= 2 and isinstance(pos[0], str) and not kw:
+            return self.call_method(RegexVal(pos[0]), name.split(".")[1], list(pos[1:]), {}, node, env0)
+        if name == "re.escape" and len(pos) == 1 and isinstance(pos[0], str):
+            import re as _re_
+            return _re_.escape(pos[0])
         if name == "operator.itemgetter" and pos:
             keys = list(pos)
 
@@ -2197,6 +2252,30 @@ class Interp:
             if getattr(self, "trace", None) is not None:
                 del self.trace.events[n_ev:]
         return cache[k.qual]
+
+    def _is_contextmanager(self, expr, env):
+        """Is the called function decorated with contextlib.contextmanager?"""
+        if not isinstance(expr, ast.Call):
+            return False
+        try:
+            fn = self.eval(expr.func, env) if not isinstance(expr.func, ast.Attribute) else None
+        except (Unsupported, RaiseEx):
+            fn = None
+        f_ = fn.func if isinstance(fn, FuncVal) else getattr(fn, "func", None) if isinstance(fn, BoundMethod) else None
+        if f_ is None and isinstance(expr.func, ast.Attribute):
+            try:
+                base = self.eval(expr.func.value, env)
+            except (Unsupported, RaiseEx):
+                return False
+            if isinstance(base, Opaque):
+                f_ = self._class_method(base.kind, expr.func.attr) if base.kind != "obj" else None
+                if f_ is None and env.get("__func__") is not None and getattr(env["__func__"], "cls", None) is not None:
+                    f_ = self.proj.method(env["__func__"].cls, expr.func.attr)
+            elif isinstance(base, ModVal) and base.name in self.proj.modules:
+                f_ = self.proj.funcs.get("%s.%s" % (base.name, expr.func.attr))
+        if f_ is None:
+            return False
+        return any(norm(d).split(".")[-1] == "contextmanager" for d in f_.node.decorator_list)
 
     def _object_iter(self, v, node, run=False):
         """An object of a package class that defines __iter__: what iterating it yields (the generator is evaluated when
